@@ -22,7 +22,7 @@ func checkC11(c *Ctx) {
 	c.Rule("C11.2", "default tempo: with no tempo event the tempo lookup and the time query use 120 BPM", 2)
 	c.Rule("C11.3", "segment rule: cumulative pass: time(k) = time(prev) + D(tempo in force before tick(k), tick(k) - tick(prev)); time query: time(prev) + D(prev.bpm, x - prev.tick), prev = last change before x; repeated ticks", 4)
 	c.Rule("C11.4", "per-event times: the iterator hands out TimeAt(absolute tick) with the absolute tick a running sum of deltas, reset per track", 1)
-	c.Rule("C11.5", "tempo collection: while reading, each tempo event is recorded with the running absolute tick of its track (reset at end-of-track) and the decoded tempo; the map is finalised (sorted, timed, latched) only after the last event is recorded", 3)
+	c.Rule("C11.5", "tempo collection: while reading, each tempo event is recorded with the running absolute tick of its track (reset at end-of-track) and the decoded tempo; the map is finalised (sorted, timed, latched) only after the last event is recorded; the records are written by nobody outside the smf package", 4)
 
 	mtT := p.namedType("smf", "MetricTicks")
 	smfT := p.namedType("smf", "SMF")
@@ -439,6 +439,40 @@ func checkC11(c *Ctx) {
 			c.Check(okDecode, "C11.5", "tempo decoded into the record", p.Pos(coll.Pos()), "GetMetaTempo writes the record's BPM", "the decoded tempo is not stored in the record")
 		}
 		tempoFinalisedAfterCollection(c, "C11.5", rf)
+	}
+	// the tempo map handed out by SMF.TempoChanges() shares its records with the file value: nobody outside the smf
+	// package may write them (a moved tick with a stale cached time makes TimeAt wrong and non-monotonic)
+	{
+		tcT := p.namedType("smf", "TempoChange")
+		n, bad, badPos := 0, "", token.NoPos
+		for _, fn := range p.ModuleFuncs() {
+			inSmf := fn.Pkg != nil && fn.Pkg.Pkg.Path() == modPath+"/smf"
+			if fn.Pkg == nil && fn.Parent() != nil && fn.Parent().Pkg != nil {
+				inSmf = fn.Parent().Pkg.Pkg.Path() == modPath+"/smf"
+			}
+			for _, b := range fn.Blocks {
+				for _, in := range b.Instrs {
+					st, ok := in.(*ssa.Store)
+					if !ok {
+						continue
+					}
+					fa, ok := st.Addr.(*ssa.FieldAddr)
+					if !ok || tcT == nil {
+						continue
+					}
+					pt, ok := fa.X.Type().Underlying().(*types.Pointer)
+					if !ok || !types.Identical(pt.Elem(), tcT) {
+						continue
+					}
+					n++
+					if _, fresh := fa.X.(*ssa.Alloc); !inSmf && !fresh {
+						bad = fmt.Sprintf("%s writes field %s of a tempo-change record it did not create: records obtained from SMF.TempoChanges() are the file's own", FuncName(fn), fieldVar(fa).Name())
+						badPos = st.Pos()
+					}
+				}
+			}
+		}
+		c.Check(bad == "" && n > 0, "C11.5", "tempo-change records are written only by the smf package", p.Pos(badPos), fmt.Sprintf("%d stores to tempo-change records in the module, all inside package smf (or into a record the function allocated itself)", n), bad)
 	}
 }
 
